@@ -4,11 +4,13 @@ Python side (work package "ref"): exhaustive scope skeletons and random deeper o
 (lib/scheme_gen.py), the reference interpreter with environments as chains of mutable
 locations as the specification oracle (lib/scheme_ref.py).  The theorems are in
 coq/Props/C02.v (integrator)."""
+import os
 import common as C
 import scheme_ref as R
 import scheme_gen as G
 import scheme_oracle as O
 
+os.environ.setdefault("MW_IMPL_CASE_BUDGET", "0.25")   # sessions are programs: bound a hanging implementation
 PID = "C02"
 ALLOWED_AXIOMS = ["Classical_Prop.classic", "ClassicalDedekindReals.sig_forall_dec",
                   "ClassicalDedekindReals.sig_not_dec", "FunctionalExtensionality.functional_extensionality_dep"]
@@ -26,8 +28,9 @@ RULE = ("scope skeletons: D nested procedures over names a b c (also defined glo
         "(exhibits qq-free-var).  Oracle = reference interpreter.  non-trivial = a captured variable is mutated after "
         "capture (decided on the skeleton); distinct by case hash")
 ASSUMPTIONS = [
-    "the closure of the next level is stored by set! into a parameter of its creator (so that actions can precede and "
-    "follow its creation inside a <body> whose definitions come first)",
+    "the closure of the next level is stored by set! into a parameter or an internal definition of its creator (so "
+    "that actions can precede and follow its creation inside a <body> whose definitions come first); with the "
+    "internal-definition style procedures that bind none of the names are thunks",
     "operator evaluated after the operands; values of define/set!/display are unspecified (wildcards), see C01",
 ]
 KERNEL_SAMPLE = {"quick": 150, "thorough": 1200}
@@ -51,7 +54,7 @@ MANIFEST_PENDING = dict(
 
 _NONTRIVIAL = {}
 QUICK_CAPS = {1: (3, 3), 2: (2, 2), 3: (2, 2), 4: (2, 2)}
-QUICK_STRIDE = {1: 1, 2: 1, 3: 4, 4: 16}
+QUICK_STRIDE = {1: 1, 2: 1, 3: 5, 4: 17}     # coprime to the 4 invocation patterns
 THOROUGH_CAPS = {1: (3, 3), 2: (3, 3), 3: (2, 2), 4: (2, 2)}
 WITNESS_QQ = ["(define a 'a0)", "(define p1 (lambda (k1 a) (set! k1 (lambda (k2) (display `(,a)) 'r2)) (k1 #f)))", "(p1 #f 'a1)"]
 
@@ -80,7 +83,8 @@ def generate(rng, tier):
         i = idx[D] = idx.get(D, 0) + 1
         if tier == "quick" and i % QUICK_STRIDE[D] != 0:
             continue
-        sessions.append(G.sk_program(D, pat, cols))
+        # the closure slot alternates between a parameter and an internal definition (thunks)
+        sessions.append(G.sk_program(D, pat, cols, kstyle="param" if (i // 4) % 2 == 0 else "idef"))
         flags.append(G.sk_nontrivial(D, cols))
         counts[D] = counts.get(D, 0) + 1
         dist.hit("pattern:" + pat)
@@ -90,13 +94,13 @@ def generate(rng, tier):
     nrand = 2500 if tier == "quick" else 25000
     for _ in range(nrand):
         D, pats, cols = G.c02_random(rng, dist)
-        sessions.append(G.sk_program(D, None, cols, pats))
+        sessions.append(G.sk_program(D, None, cols, pats, kstyle=rng.choice(["param", "idef"])))
         flags.append(G.sk_nontrivial(D, cols))
     nqq = 600 if tier == "quick" else 4000
     for _ in range(nqq):
         D, pats, cols = G.c02_random(rng, dist)
         qq = set(l for l in range(D) if rng.random() < 0.5) or {D - 1}
-        sessions.append(G.sk_program(D, None, cols, pats, qq_levels=qq))
+        sessions.append(G.sk_program(D, None, cols, pats, qq_levels=qq, kstyle=rng.choice(["param", "idef"])))
         flags.append(G.sk_nontrivial(D, cols))
     meta["random_skeletons"] = nrand
     meta["quasiquote_read_skeletons"] = nqq
